@@ -30,6 +30,7 @@ func atoi(s string) int {
 
 var mains = map[string]func(map[string]string){
 	"c01": c01Main,
+	"c02": c02Main,
 	"c03": c03Main,
 	"c04": c04Main,
 	"c05": c05Main,
